@@ -7,14 +7,15 @@ from .. import kalg
 
 META = {
     "level": "other",
-    "technique": "lock-scope typestate (must-dataflow over CFGs with implicit destructors), post-dominance, who-may-write, index algebra",
+    "technique": "lock-scope typestate (must-dataflow over CFGs with implicit destructors), post-dominance, who-may-write, bounded evaluation of the index arithmetic",
     "explanation": "Decides the locking/signalling discipline that makes the pool's behaviour schedule-independent: every access "
                    "to the queue's task list and stop flag happens while the queue mutex is held (or in a wait predicate, or in "
                    "a requires-lock function all of whose call sites hold it); every publish (task pushed, stop set) happens under the lock and is followed "
                    "on all paths by a notify; waits use the predicate form over exactly the published fields; tasks "
                    "are popped under the lock and run / joined / waited outside it; map() stores every future it creates and "
-                   "blocks on all of them on every exit (also via the section destructor); the chunk loop tiles [0, elements) "
-                   "identically in the sequential and parallel branches and captures indices by value; worker ids are 0..n-1, "
+                   "blocks on all of them on every exit (also via the section destructor); the operator invocations of map, "
+                   "evaluated from its loop nest over a grid of workers x elements x chunk size, tile [0, elements) exactly once in ranges of at most "
+                   "chunksize, and tasks capture their indices by value; worker ids are 0..n-1, "
                    "fixed at construction. This is the standard sufficient discipline for exactly-once / completion / clean "
                    "shutdown; interleavings themselves are not enumerated.",
     "not_decided": "exhaustive interleavings; behaviour of exceptions thrown by the operator beyond the wait-on-all-futures rule",
